@@ -17,7 +17,9 @@ class C17Tables(Scenario):
                     "universe": rng.between(7, 12), "param": rng.between(1, 10),
                     # an object of the same class lives (long enough to evict / cross the threshold) and dies before
                     # the subject is built; CPython hands its address to the subject
-                    "prior_obj": rng.chance(1, 4), "neighbour": rng.chance(1, 6)})
+                    "prior_obj": rng.chance(1, 4), "neighbour": rng.chance(1, 6),
+                    # the table is looked at after every step, or only after some of them (a look is a query too)
+                    "sparse_looks": rng.chance(1, 3)})
         if rng.chance(1, 60):
             # tables of several hundred entries, a sketch wide enough that estimates are mostly exact
             cfg.update({"sizing": {"width": rng.choice((1500, 4000)), "depth": rng.between(1, 2)},
@@ -36,7 +38,12 @@ class C17Tables(Scenario):
                 return {"op": "low_pair", "k1": rng.between(640, 699), "k2": rng.between(640, 699)}
         if rng.chance(1, 12):
             return {"op": "add", "k": rng.below(self.cfg["universe"]), "n": 0}  # adding nothing is still an add of that key
-        return self.sub.gen_op(rng)
+        if rng.chance(1, 15):
+            return {"op": "describe"}  # str() of the structure between two updates
+        st = self.sub.gen_op(rng)
+        if self.cfg.get("sparse_looks"):
+            st["look"] = rng.chance(1, 3)
+        return st
 
     def setup(self, cfg):
         self.cfg = cfg
@@ -83,11 +90,18 @@ class C17Tables(Scenario):
                 r = sub.apply_op({"op": "add", "k": k, "n": n})
                 self.last[k] = r
             ctx.fault("newcomers_between_lowest")
+        elif step["op"] == "describe":
+            r = len(str(o))
+            r = None
+            ctx.fault("described")
         else:
             r = sub.apply_op(step)
             if r == "skip":
                 return "skip"
             self.last[step["k"]] = r
+            if self.cfg.get("sparse_looks") and not step.get("look"):
+                ctx.fault("step_without_look")
+                return {"r": r, "tracked": None}
         sig = {"class": sub.name, "op": step["op"]}
         want_keys = {sub.key(k): v for k, v in self.last.items()}
         if sub.name == "HeavyHitters":
@@ -125,6 +139,10 @@ class C17Tables(Scenario):
                 ctx.nontrivial = True
         ctx.state(sub.name, len(table), len(self.last))
         return {"r": r, "tracked": len(table)}
+
+    def finish(self):
+        if self.cfg.get("sparse_looks") and self.last:
+            self.apply({"op": "describe"})  # one last look at the table
 
     def simplify_step(self, step):
         if step.get("n", 1) > 1:
